@@ -16,7 +16,7 @@ for f in json.load(open('/verif/known_findings.json'))['fixed']:
     if m and (not want or m.group(2) in want): print(m.group(2), m.group(1))
 PY
 # extra checks that also see a given defect (the entry names the property it was filed under)
-extra() { case "$1" in 1dffa83) echo C17;; 2cf62d6) echo C16;; dbf852f) echo C05;; 70a4f07|2a13abd|9f008c2) echo C06;; *) echo "";; esac; }
+extra() { case "$1" in 1dffa83) echo C17;; 2cf62d6) echo C16;; 2cf62d6) echo C16;; dbf852f) echo C05;; 70a4f07|2a13abd|9f008c2) echo C06;; *) echo "";; esac; }
 while read commit prop; do
   # the v2 fixes live in the v2 module of the same repository
   git -C /repo diff "$commit" "$commit^" > /tmp/revert_fix.patch
